@@ -145,6 +145,11 @@ func oracle(t []string, out string) *hx.Violation {
 					dpen = a.penalty - pre.penalty
 					availPre = pre.total - pre.deposit - pre.penalty
 				}
+				if viol == nil && len(p) > 5 && a.total != i64(p[5]) {
+					viol = &hx.Violation{Kind: "cr-ledger-mismatch", Detail: fmt.Sprintf(
+						"candidate=%d recorded_total=%d tracked_unspent_deposit_outputs=%d: DepositInfo.TotalAmount differs from the deposit outputs that are still unspent (every spent output must be debited exactly once)",
+						id, a.total, i64(p[5]))}
+				}
 				if viol == nil && oCRRets[id] >= 1 && availPost+dpen < 0 {
 					viol = &hx.Violation{Kind: "cr-deposit-overdraft", Detail: fmt.Sprintf(
 						"candidate=%d returns_in_block=%d available_before=%d available_after=%d: CR deposit withdrawals of one block exceed the available amount",
@@ -154,7 +159,7 @@ func oracle(t []string, out string) *hx.Violation {
 					viol = &hx.Violation{Kind: "cr-negative-balance", Detail: fmt.Sprintf("candidate=%d total=%d lock=%d", id, a.total, a.deposit)}
 				}
 			} else {
-				s := oStake{i64(p[1]), i64(p[2]), i64(p[3])}
+				s := oStake{i64(p[1]), i64(p[2]), clampI64(p[3])}
 				pre := oStakes[id]
 				oStakes[id] = s
 				bad := s.used > s.rights || s.used < 0 || s.rights < 0
@@ -174,6 +179,14 @@ func oracle(t []string, out string) *hx.Violation {
 		return viol
 	}
 	return nil
+}
+
+func clampI64(x string) int64 {
+	v, err := strconv.ParseInt(x, 10, 64)
+	if err != nil {
+		return 1<<63 - 1
+	}
+	return v
 }
 
 func nontrivial(t []string, out string) bool {
@@ -518,6 +531,14 @@ func (s *genState) randomTx() {
 		}
 		if r.Chance(5) {
 			vs[0] = "0"
+		}
+		if r.Chance(4) { // amounts whose Fixed64 sum does not fit (wraps to a small value)
+			for i := range vs {
+				vs[i] = "4611686018427387904"
+			}
+			if n == 1 {
+				vs[0] = "9223372036854775807"
+			}
 		}
 		lock := s.h + minLock + r.Intn(6)
 		if r.Chance(8) {
